@@ -282,8 +282,130 @@ def run_assembled(case):
     return res
 
 
+SCALES = [1e-4, 1e-2, 1.0, 1e2, 1e4]
+SCALED_ROWS = [[[[1, 1], 2, "U"]], [[[1, -1], 1, "S"]], [[[1, 1], 2, "U"], [[1, -1], -1, "L"]], [[[1, 0], 1, "L"], [[1, 1], 2, "S"]],
+               [[[1, 1], 2, "N"], [[1, 0], 1, "U"]]]
+
+
+def scaled_cases(tier):
+    """badly scaled variants of tiny problems (variable j measured in units of s_j): exercises the 'inaccurate' branch"""
+    out = []
+    for s0, s1 in __import__("itertools").product(SCALES, repeat=2):
+        if s0 == s1 == 1.0:
+            continue
+        for rows in SCALED_ROWS:
+            c = dict(kind="scaled", rows=rows, scale=[s0, s1], bounds=[[0, 2], [0, 3]], n=2)
+            c["key"] = chash(c)
+            out.append(c)
+    return out
+
+
+def run_scaled(case):
+    from eaopack.optimization import OptimProblem
+    import scipy.sparse as sp
+    res = dict(status="ok", violations=[], counters={})
+    V = res["violations"]
+    sc = [F(str(x)) if x >= 1 else 1 / F(str(int(round(1 / x)))) for x in case["scale"]]
+    scf = np.array([float(x) for x in sc])
+    rows = case["rows"]
+    types = "".join(r[2] for r in rows)
+    A_ex = [[F(a) * sc[j] for j, a in enumerate(r[0])] for r in rows]
+    b_ex = [F(r[1]) for r in rows]
+    l_ex = [F(bd[0]) / sc[j] for j, bd in enumerate(case["bounds"])]
+    u_ex = [F(bd[1]) / sc[j] for j, bd in enumerate(case["bounds"])]
+    tags = ["scaled", "types:" + "".join(sorted(types))]
+    outcomes = set()
+    any_success = False
+    for cost in COSTS2[:3]:
+        c_ex = [F(str(v)) * sc[j] for j, v in enumerate(cost)]
+        ex = R5.solve(c_ex, l_ex, u_ex, A_ex, b_ex, types, [])
+        exact = None if ex is None else (float(ex[0]), [float(v) for v in ex[1]])
+        A = np.array([[float(a) for a in r] for r in A_ex])
+        b = np.array([float(x) for x in b_ex])
+        l = np.array([float(x) for x in l_ex])
+        u = np.array([float(x) for x in u_ex])
+        c = np.array([float(x) for x in c_ex])
+        for sv in (None, "CLARABEL", "SCS", "SCIPY"):
+            label = "scaled %s solver=%s cost=%s" % (case["scale"], sv, cost)
+            ctag = ["solver:%s" % sv, "scaled"]
+            m = pd.DataFrame(dict(asset=["a"] * 2, node=["n"] * 2, type=["i"] * 2, time_step=[0, 0], var_name=["v0", "v1"]), index=[0, 1])
+            try:
+                op = OptimProblem(c=c.copy(), l=l.copy(), u=u.copy(), A=sp.lil_matrix(A), b=b.copy(), cType=types, mapping=m)
+                r = op.optimize() if sv is None else op.optimize(solver=sv)
+            except Exception as e:
+                res["counters"]["raises:%s" % type(e).__name__] = res["counters"].get("raises:%s" % type(e).__name__, 0) + 1
+                if exact is not None:
+                    V.append(viol("c03.raises", "%s raises %s on a feasible problem" % (label, short_exc(e)), tags + ctag, ctag + ["raises", type(e).__name__]))
+                continue
+            # status handling: what cvxpy itself reports for the identical model decides which kind of answer is due
+            st_direct = direct_status(c, l, u, A, b, types, sv)
+            res["counters"]["cvxpy_status:" + str(st_direct)] = res["counters"].get("cvxpy_status:" + str(st_direct), 0) + 1
+            kind = "solution" if not isinstance(r, str) else r
+            due = "solution" if st_direct == "optimal" else ("inaccurate" if st_direct == "optimal_inaccurate" else "failure")
+            if (due == "solution") != (kind == "solution") or (due == "inaccurate") != (kind == "inaccurate"):
+                V.append(viol("c03.status", "%s: cvxpy status %r, optimize() returns %s" % (label, st_direct, "a solution" if kind == "solution" else repr(kind)),
+                              tags + ctag, ctag + ["status", str(st_direct)]))
+            if sv == "SCS":
+                # a first-order solver on a badly scaled problem: only the status handling is judged, not SCS's accuracy
+                outcomes.add("success" if kind == "solution" else "inaccurate" if kind == "inaccurate" else "failure")
+                any_success = any_success or kind == "solution"
+                res["counters"]["solves"] = res["counters"].get("solves", 0) + 1
+                continue
+            # the problem is equivalent to a well scaled one: check in scaled (unit) coordinates, with a loose tolerance
+            if not isinstance(r, str):
+                xs = np.asarray(r.x, float) * scfrac(scf)
+                class _R:  # result in unit coordinates
+                    pass
+                rr = _R()
+                rr.x, rr.value = xs, r.value
+                cu = np.array(cost, float)
+                Au = np.array([r_[0] for r_ in rows], float)
+                lu = np.array([bd[0] for bd in case["bounds"]], float)
+                uu = np.array([bd[1] for bd in case["bounds"]], float)
+                vv, oc = check_result(rr, cu, lu, uu, Au, b, types, [], exact if exact is None else (exact[0], None), 1e-4, label, tags + ctag, ctag)
+            else:
+                vv, oc = check_result(r, c, l, u, A, b, types, [], exact, 1e-4, label, tags + ctag, ctag)
+            V += vv
+            outcomes.add(oc)
+            any_success = any_success or oc == "success"
+            res["counters"]["solves"] = res["counters"].get("solves", 0) + 1
+            res["counters"]["outcome:" + oc] = res["counters"].get("outcome:" + oc, 0) + 1
+    res["nontrivial"] = any_success
+    res["outcome"] = "scaled:" + ",".join(sorted(outcomes))
+    res["fingerprint"] = res["outcome"]
+    return res
+
+
+def scfrac(scf):
+    return scf
+
+
+def direct_status(c, l, u, A, b, types, solver):
+    """status cvxpy reports for the same model (bounds, rows by type, maximise -c.x) with the same solver"""
+    import cvxpy as CVX
+    import io
+    import contextlib
+    x = CVX.Variable(len(c))
+    cons = [x <= u, x >= l]
+    for t in "ULSN":
+        idx = [i for i, tt in enumerate(types) if tt == t]
+        if idx:
+            e = A[idx, :] @ x
+            cons.append(e <= b[idx] if t == "U" else e >= b[idx] if t == "L" else e == b[idx])
+    prob = CVX.Problem(CVX.Maximize(-c.T @ x), cons)
+    try:
+        with contextlib.redirect_stdout(io.StringIO()):
+            if solver is None:
+                prob.solve()
+            else:
+                prob.solve(solver=getattr(CVX, solver))
+        return prob.status
+    except Exception as e:
+        return "exception:" + type(e).__name__
+
+
 def build_cases(tier):
-    tiny = tiny_cases(tier)
+    tiny = tiny_cases(tier) + scaled_cases(tier)
     asm, st = assembled_cases(tier)
     stats = dict(explorer="E3 product (tiny problems) + E1 (assembled problems)", states=len(tiny) + len(asm),
                  transitions=len(tiny) * len(COSTS2) * 4 + st["transitions"],
@@ -294,4 +416,6 @@ def build_cases(tier):
 def run_case(case):
     if case.get("kind") == "tiny":
         return run_tiny(case)
+    if case.get("kind") == "scaled":
+        return run_scaled(case)
     return run_assembled(case)
